@@ -96,6 +96,15 @@ class Obj:
         self.n = flavour
         self.o = self._make(origin, tuple(v), ofmt)
         self.tracked = tuple(v)       # model-free oracle: the valuation the setters were called with
+        self.spoiled = False          # a field currently holds a value that cannot be serialised
+        # which attribute is spoiled: one that the concretisation's own fields do not cover
+        tr = conc.triple or ()
+        if self.kind == "commit":
+            self.spoil_attr = "commit_timezone" if "ctz" not in tr else "author_timezone"
+        elif self.kind == "tag":
+            self.spoil_attr = "object" if "target" not in tr else "name"
+        else:
+            self.spoil_attr = None
 
     # -- construction
     def _make(self, origin, v, ofmt=0):
@@ -132,11 +141,36 @@ class Obj:
     def _legacy(self, b):
         return zlib.compress(self.kind.encode() + b" " + str(len(b)).encode() + b"\0" + b)
 
+    READS = [("AsRaw", ()), ("ReadId", ()), ("ReadIdF", (1,)), ("ReadIdF", (2,)), ("Copy", ()), ("Check", ()), ("Reload", (0,))]
+
     # -- operations; each returns (what kind of value, value) for the comparison
     def do(self, op, args):
         o, c, O = self.o, self.c, self.O
         self.n += 1
         n = self.n
+        if op == "Spoil":
+            # an ordinary setter call with a value _serialize() cannot write
+            if self.kind == "commit":
+                setattr(o, self.spoil_attr, 61)                   # not a whole minute: ValueError
+            elif self.kind == "tag":
+                if self.spoil_attr == "object":
+                    o.object = (O.Commit, None)                   # "missing object sha"
+                else:
+                    o.name = None                                 # "missing tag name"
+            else:
+                o[b"zz-bad"] = ("x", c.entry[0][2])               # a mode that is not a number: TypeError
+            self.spoiled = True
+            return ("none", None)
+        if op == "Unspoil":
+            if self.kind in ("commit", "tag"):
+                set_attr(o, self.kind, self.spoil_attr, c.F[self.tracked])
+            else:
+                del o[b"zz-bad"]
+            self.spoiled = False
+            return ("none", None)
+        if op == "FailedRead":
+            self.last_read = self.READS[n % len(self.READS)]
+            return self.do(*self.last_read)                       # expected to raise; execute() judges
         if op == "Set":
             f, x = args
             v = list(self.tracked)
@@ -207,6 +241,7 @@ class Obj:
                     o.set_raw_string(b, verify_sha=sha)     # verified against the object's own format
                 else:
                     o.set_raw_string(b, sha)
+                self.spoiled = False                               # parsing overwrote every field
             self.tracked = v
             return ("none", None)
         if op == "Copy":
@@ -220,12 +255,15 @@ class Obj:
             try:
                 o.check()
             except O.ObjectFormatException:
-                pass          # check() is stricter than the grammar (e.g. a tag without tagger); not part of C01
+                if self.spoiled:
+                    raise     # the failed serialisation itself
+                # otherwise: check() is stricter than the grammar (e.g. a tag without tagger); not part of C01
             except O.ChecksumMismatch:
                 # ShaFile.check() recomputes with SHA-1 and so rejects every object that carries its
                 # SHA-256 name; reported as an observation, outside the statement of C01
                 if not self._had_fixed256:
                     raise
+            self.spoiled = False                                   # (re-parsed; only reached if the read did not fail)
             return ("bytes", b"".join(o._chunked_text))
         if op == "Reload":
             data = o.as_legacy_object()
@@ -241,6 +279,7 @@ class Obj:
             if type(o2) is not type(o):
                 return ("bytes", b"<type " + type(o2).__name__.encode() + b">")
             self.o = o2
+            self.spoiled = False
             return ("bytes", b"".join(o2._chunked_text))
         raise ValueError(op)
 
@@ -250,7 +289,14 @@ class Obj:
         if self.kind == "commit":
             got = rd_commit(o)
         elif self.kind == "tag":
+            hide = self.spoiled and self.spoil_attr == "object"
+            if hide:
+                o._object_sha = c.F[self.tracked]["object"][1]     # slot only, no flag touched: the getter needs a value
             got = rd_tag(o)
+            if hide:
+                o._object_sha = None
+        if self.spoiled and self.kind in ("commit", "tag"):
+            got[self.spoil_attr] = c.F[self.tracked][self.spoil_attr]   # the spoiled attribute is the model's `bad', not a field
         fields = None
         if self.kind in ("commit", "tag"):
             for v, F in c.F.items():
@@ -258,7 +304,7 @@ class Obj:
                     fields = v
                     break
         elif self.kind == "tree":
-            ents = {n: (n, m, h) for n, (m, h) in o._entries.items()}
+            ents = {n: (n, m, h) for n, (m, h) in o._entries.items() if n != b"zz-bad"}
             for v, F in c.F.items():
                 if F == ents:
                     fields = v
@@ -275,7 +321,7 @@ class Obj:
             k = "fixed" if isinstance(s, self.O.FixedSha) else "computed"
             v, f = c.by_name.get(s.hexdigest(), ("other", 0))
             sha = (k, v, f)
-        return {"fields": fields, "dirty": bool(o._needs_serialization), "text": text, "sha": sha}
+        return {"fields": fields, "dirty": bool(o._needs_serialization), "text": text, "sha": sha, "bad": self.spoiled}
 
 
 LABEL = re.compile(r"^(\w+)(?:\((.*)\))?$")
@@ -293,7 +339,7 @@ def parse_label(lab):
         return op, (v, int(mm.group(2) or 0))
     if op in ("Reload", "ReadIdF"):
         return op, (int(a),)
-    return op, ()
+    return op, ()          # AsRaw ReadId Copy Check Spoil Unspoil FailedRead
 
 
 def op_str(op, args):
@@ -306,7 +352,8 @@ def op_str(op, args):
         return "reload" + (f"[{ALGO_OF[args[0]]}-name]" if args[0] else "")
     if op == "ReadIdF":
         return f"get_id({ALGO_OF[args[0]]})"
-    return {"AsRaw": "raw", "ReadId": "id", "Copy": "copy", "Check": "check"}[op]
+    return {"AsRaw": "raw", "ReadId": "id", "Copy": "copy", "Check": "check", "Spoil": "unserialisable-edit",
+            "Unspoil": "repair-edit", "FailedRead": "read"}[op]
 
 
 def judge(conc, kind_of, value, expect_v):
@@ -346,15 +393,30 @@ def execute(conc, origin, v0, ops, flavour=0, states=None, epilogue=True, ofmt=0
         if not impl_exc(e):
             raise
         return [(0, f"exception:{type(e).__name__}", str(e)[:200])], [], []
+    READ_OPS = ("AsRaw", "ReadId", "ReadIdF", "Copy", "Check", "Reload", "FailedRead")
     for i, (op, args) in enumerate(list(ops) + (EPILOGUE if epilogue else [])):
+        was_spoiled = ob.spoiled
         try:
             kind_of, value = ob.do(op, args)
         except Exception as e:  # noqa: BLE001
             if not impl_exc(e):
                 raise
+            if was_spoiled and op in READ_OPS:
+                # the fields cannot be serialised: the read has to fail (every time it is asked)
+                pr = ob.project()
+                events.append({"op": "FailedRead", "args": (), "ret": ob.tracked, "rfmt": 0, "err": True, "st": pr})
+                if states is not None and i < len(states) and op == "FailedRead":
+                    d = state_diff(states[i], pr, conc)
+                    if d:
+                        drifts.append((i, op_str(op, args), d))
+                continue
             fails.append((i, f"exception:{op}:{type(e).__name__}", str(e)[:200]))
             break
         cl = judge(conc, kind_of, value, ob.tracked)
+        if was_spoiled and op in READ_OPS:
+            # no exception although a field holds an unserialisable value: whatever came back is not
+            # the serialisation / name of the current fields
+            cl = "read-succeeds-on-unserialisable-fields"
         if cl:
             fails.append((i, cl, (value[:80].hex() if isinstance(value, bytes) else repr(value)[:200])))
         pr = ob.project()
@@ -368,7 +430,9 @@ def execute(conc, origin, v0, ops, flavour=0, states=None, epilogue=True, ofmt=0
             ret, rfmt = conc.by_name.get(value.decode("ascii", "replace"), ("other", 0))
         else:
             ret = ob.tracked
-        events.append({"op": op, "args": args, "ret": ret, "rfmt": rfmt, "st": pr})
+        if op == "FailedRead":                         # it did not fail: record the read that was made
+            op, args = ob.last_read
+        events.append({"op": op, "args": args, "ret": ret, "rfmt": rfmt, "err": False, "st": pr})
         if states is not None and i < len(states):
             d = state_diff(states[i], pr, conc)
             if d:
@@ -386,6 +450,8 @@ def state_diff(model, real, conc):
     mt = tuple(model["text"]["v"]) if model["text"]["some"] else None
     if mt != real["text"]:
         return f"text model={mt} real={real['text']}"
+    if bool(model.get("bad", False)) != bool(real.get("bad", False)):
+        return f"bad model={model.get('bad')} real={real.get('bad')}"
     mk = str(model["sha"]["k"])
     ms = (mk, tuple(model["sha"]["v"]) if mk != "none" else None, int(model["sha"]["fmt"]))
     if ms != tuple(real["sha"]):
@@ -558,8 +624,20 @@ def run_job(job):
             vals = sorted(conc.bytes)
             v0 = rng.choice(vals)
             ops = []
+            sp = False
             for _ in range(job.get("history_len", 20)):
                 r = rng.random()
+                if conc.kind != "blob" and rng.random() < 0.12:
+                    # an unserialisable edit, asked twice (or more), sometimes repaired
+                    if not sp:
+                        ops.append(("Spoil", ()))
+                        sp = True
+                        for _k in range(rng.randint(1, 3)):
+                            ops.append(rng.choice(Obj.READS))
+                    else:
+                        ops.append(("Unspoil", ()))
+                        sp = False
+                    continue
                 if conc.kind == "blob":
                     if r < 0.3:
                         ops.append(("SetChunked", (rng.choice(vals), 0)))
@@ -569,6 +647,7 @@ def run_job(job):
                     ops.append(("Set", (rng.randint(1, conc.nf), rng.randint(0, 1))))
                 elif r < 0.45:
                     ops.append(("SetRaw", (rng.choice(vals), rng.choice([0, 0, 1, 2]))))
+                    sp = False
                 if len(ops) and r < 0.45:
                     continue
                 ops.append(rng.choice([("AsRaw", ()), ("ReadId", ()), ("ReadIdF", (1,)), ("ReadIdF", (1,)), ("ReadIdF", (2,)), ("Copy", ()),
